@@ -628,7 +628,7 @@ def gen_response_case(rng, fault=None):
 
 
 # ---------------------------------------------------------------- segmentations
-def structural_cuts(data, cap=160):
+def structural_cuts(data, cap=120):
     cuts = set()
     for i, c in enumerate(data):
         if c in (0x0a, 0x0d, 0x3a, 0x20, 0x3b, 0x2c):
@@ -658,7 +658,7 @@ def split_at(data, cuts):
     return [s for s in out if s]
 
 
-def segmentations(rng, data, thorough=False, byte_cap=700):
+def segmentations(rng, data, thorough=False, byte_cap=500):
     """-> list of (name, [segments]) : one-shot, byte-at-a-time, structural, random (+2 more in thorough)."""
     segs = [('one', [data] if data else [])]
     if len(data) <= byte_cap:
@@ -685,7 +685,7 @@ def segmentations(rng, data, thorough=False, byte_cap=700):
 
 
 # ---------------------------------------------------------------- size-limit cases (C25)
-READ_QUANTUM = 4096
+READ_QUANTUM = 16384
 
 
 def _fill(rng, n):
@@ -813,10 +813,10 @@ def gen_limit_case(rng, measure, thorough=False):
 
 def _gen_limit_probe(rng, client, thorough):
     """Streams whose oversized element is never terminated (or far beyond the limits): buffering must stay bounded."""
-    mh = rng.choice([0, 16, 64, 300, 1000, 3000])
-    mb = rng.choice([0, 16, 64, 300, 1000, 3000])
+    mh = rng.choice([0, 16, 64, 300, 1000])
+    mb = rng.choice([0, 16, 64, 300, 1000])
     bound = mh + mb + READ_QUANTUM + 256
-    L = rng.choice([bound + 1000, 2 * bound, 3 * bound] + ([8 * bound] if thorough else []))
+    L = rng.choice([bound + 3000, bound + 9000, 2 * bound] + ([3 * bound, 8 * bound] if thorough else []))
     fill = _fill(rng, L)[:L]
     if not client:
         kind = rng.choice(['request-line', 'header-line', 'many-headers', 'chunk-size-line', 'chunk-ext', 'trailer-line', 'body-cl', 'body-chunk',
@@ -867,4 +867,4 @@ def _gen_limit_probe(rng, client, thorough):
 def segmentations_big(rng, data, thorough=False):
     """Segmentations for possibly large streams: one-shot, byte-at-a-time over the first bytes + coarse rest,
     structural cuts (capped), random cuts; thorough adds 4096-byte blocks and another random one."""
-    return segmentations(rng, data, thorough=thorough, byte_cap=300)
+    return segmentations(rng, data, thorough=thorough, byte_cap=200)
